@@ -44,6 +44,7 @@ fn main() {
             let mut r = rv::record::Recorder::new(&out, seed);
             match driver.as_str() {
                 "store" => r.driver_store(rounds),
+                "session" => r.driver_session(rounds),
                 "enc" => {
                     let shard: usize = arg(&args, "--shard").and_then(|s| s.parse().ok()).unwrap_or(0);
                     let shards: usize = arg(&args, "--shards").and_then(|s| s.parse().ok()).unwrap_or(1);
